@@ -403,6 +403,10 @@ def run(p, report, tier):
     for o in _sub18.obligations:
         if o.rule == "R18.2" and "returned indices" in o.construct:
             report.add("R1.11", o.entity, o.construct, o.loc, o.ok, detail=o.detail)
+    report.rule("R1.14", "distinct picks need sequential selection: the indices a pool query returns are not the row-wise "
+                "optimum of several utility rows taken in one call (shared with C02 R2.12)", floor=20)
+    from . import c02 as _c02b
+    _c02b.check_no_parallel_selection(p, Report_proxy(report, {"R2.12": "R1.14"}), funcs)
     report.rule("R1.12", "after the scatter through the candidate mapping nothing removes OFFERED samples from the utilities "
                 "handed to simple_batch: a constant NaN / -inf store into that array (outside a selection loop) is indexed by "
                 "the mapping role (its complement), never by labels or other data - the batch size was clipped to the number "
